@@ -150,3 +150,53 @@ def pick(x, lo: int, hi: int) -> int:
         else:
             lo = mid + 1
     return lo
+
+
+def dump_sqlite(path: str, prefix: str | None = None) -> dict:
+    """Every row of every table (optionally only tables whose name starts with `prefix`)."""
+    import sqlite3
+
+    conn = sqlite3.connect(path, timeout=0)
+    out = {}
+    try:
+        for (name,) in conn.execute("SELECT name FROM sqlite_master WHERE type='table' ORDER BY name").fetchall():
+            if name.startswith("sqlite_"):
+                continue
+            if prefix is not None and not name.startswith(prefix):
+                continue
+            out[name] = conn.execute(f'SELECT * FROM "{name}" ORDER BY rowid').fetchall()
+    finally:
+        conn.close()
+    return out
+
+
+def mem_snapshot(app) -> dict:
+    """Curated snapshot of the observable state of an in-memory stack (caches and locks excluded)."""
+    o, b, s, t = app.orchestrator, app.broker, app.state_backend, app.trigger
+    snap = {
+        "queue": list(b._queue),
+        "status": {k: (v.status, v.runner_id, v.timestamp) for k, v in o.invocation_status_record.items()},
+        "index": {k.value: sorted(v) for k, v in o.status_index.items() if v},
+        "retries": dict(o.invocation_retries),
+        "purge_q": list(o.invocations_to_purge),
+        "hb": dict(o.runner_last_heartbeat),
+        "hb_create": dict(o.runner_creation_time),
+        "svc": (dict(o.runner_last_service_start), dict(o.runner_last_service_end)),
+        "args_index": {str(k): sorted(v) for k, v in o.args_index.items() if v},
+        "waiting_for": {k: sorted(v) for k, v in o.blocking_control.waiting_for.items() if v},
+        "waited_by": {k: sorted(v) for k, v in o.blocking_control.waited_by.items() if v},
+    }
+    for name, val in vars(s).items():
+        if name in ("app", "invocation_threads", "_runner_context_cache") or callable(val):
+            continue
+        snap["sb." + name] = repr(val)
+    for name, val in vars(t).items():
+        if name == "app" or "lock" in name.lower():
+            continue
+        snap["tr." + name] = repr(val)
+    c = app.client_data_store
+    for name, val in vars(c).items():
+        if name == "app" or "lock" in name.lower() or "cache" in name.lower():
+            continue
+        snap["cds." + name] = repr(val)
+    return snap
